@@ -14,7 +14,8 @@ func init() {
 		ID: "C20",
 		Explanation: "Structural necessary conditions of 'TLS verification and credential disclosure are exactly as documented': R1 for each of the six rows of the documented table (both copies must agree) a path-sensitive constant propagation of setupTLSConfig with the row's inputs yields the row's InsecureSkipVerify result at every return; R2 every store to a field of a *tls.Config targets a config created (literal / Clone) in the same function on every path; " +
 			"R3 ServerName is set only under !InsecureSkipVerify && ServerName==\"\" from the dialled address; R4 failures of reading/parsing CA and key-pair files return non-nil errors, which connConfig and NewSession propagate; R5 PasswordAuthenticator.Challenge returns a token only after approve() accepted the server's authenticator class, and approve falls back to the default list only when the custom list is empty; R6 a session is authenticated unless the server said READY: startup returns nil only for READY, authenticateHandshake refuses a missing authenticator first and returns nil only on AUTH_SUCCESS." +
-			" R2 also covers fields of the *tls.Config embedded in SslOptions (promoted selectors); R7 the default dialer hands WrapTLS the host's name (HostnameAndPort) for the ServerName, not the address it dialled.",
+			" R2 also covers fields of the *tls.Config embedded in SslOptions (promoted selectors); R7 the default dialer hands WrapTLS the host's name (HostnameAndPort) for the ServerName, not the address it dialled." +
+			" R4 also: a success return that did not load the client key pair knows both CertPath and KeyPath to be empty.",
 		NotDecided: "the SASL PLAIN byte layout of the token (value-level); behaviour of crypto/tls itself; certificate contents; what user-supplied authenticators disclose.",
 		Rules: []*Rule{
 			{ID: "C20.R1", Floor: 7, Doc: "documented TLS table (doc.go, conn.go, setupTLSConfig comment) agrees and is implemented: constant propagation per row", Run: c20r1},
